@@ -12,5 +12,6 @@ INVARIANT NoMergeFailure
 INVARIANT PerTreeQueriesEnabled
 INVARIANT RootingKept
 INVARIANT NothingLost
+INVARIANT SettingsKept
 PROPERTY OperandsUnchanged
 CHECK_DEADLOCK FALSE
